@@ -85,7 +85,7 @@ theorem C18_filter_first_match (tbl : List Repl) (l : Line) (ls : List Line) :
     an ErrorFuture at the bottom): the caller gets an exception iff the sequential reading `ref` says so, it is THAT
     exception object, and the user frames of its traceback - as the caller catches it, and as stored in `_traceback`
     (what `format_error` prints) - are the caller's frame followed by exactly the frames `ref` lists -/
-theorem C18_glue (rule : FrameRule) (bottom : Bool) (levels : List Level) :
+theorem C18_glue (rule : FrameRule) (bottom : Bottom) (levels : List Level) :
     match (run rule bottom 0 [] levels).out, ref bottom 0 levels with
     | none, none => True
     | some e, some (tok, fs) =>
@@ -115,48 +115,46 @@ theorem C18_glue (rule : FrameRule) (bottom : Bool) (levels : List Level) :
       · rw [ht] at hty
         simp [callerView, unwind, valueRaises, reraise, hty, List.filter_cons, isUser, htb]
 
-/-- **one frame per task level, in call order, ending at the raising frame**: the frames `ref` lists for an exception
-    that reaches the awaiter of level `lv` are the generator frames of `n` consecutive levels `lv, lv+1, .., lv+n-1`
-    (each exactly once), followed by the `h` helper frames of the raiser `lv+n-1`; `n ≤` the depth of the chain -/
-theorem C18_glue_shape (bottom : Bool) (levels : List Level) :
-    ∀ (lv tok : Nat) (fs : List Frame), ref bottom lv levels = some (tok, fs) →
-      ∃ n h, n ≤ levels.length ∧ (0 < h → 0 < n) ∧
-        fs = (List.range' lv n).map .task ++ (List.range h).map (fun k => .helper (lv + n - 1) (k + 1)) := by
-  induction levels with
-  | nil =>
-    intro lv tok fs h
-    cases bottom <;> simp [ref] at h
-    exact ⟨0, 0, by simp [h.2]⟩
-  | cons L rest ih =>
-    intro lv tok fs h
-    have hown : ∀ tok fs, (L.own.map fun h => (ownTok lv, raisedIn lv h)) = some (tok, fs) →
-        ∃ n h, n ≤ (L :: rest).length ∧ (0 < h → 0 < n) ∧
-          fs = (List.range' lv n).map .task ++ (List.range h).map (fun k => .helper (lv + n - 1) (k + 1)) := by
-      intro tok fs ho
-      cases hx : L.own with
-      | none => simp [hx] at ho
-      | some h' =>
-        simp only [hx, Option.map_some, Option.some.injEq, Prod.mk.injEq] at ho
-        exact ⟨1, h', by simp, by simp, by simp [← ho.2, raisedIn, List.range'_one]⟩
-    simp only [ref] at h
-    cases hr : ref bottom (lv + 1) rest with
-    | none =>
-      rw [hr] at h
+/-- the frames of an exception that reaches the awaiter of level `lv` in a chain of `len` levels: the generator frames
+    of `n` consecutive levels `lv .. lv+n-1`, each exactly once, followed by the raising frames - either the `h` helper
+    frames of the raiser `lv+n-1`, or the hook (and its helpers) of a context entered by level `lv+n`, which the
+    scheduler called (the owner's generator is not on the Python stack then) -/
+def GluedShape (lv len : Nat) (fs : List Frame) : Prop :=
+  ∃ n, n ≤ len ∧
+    ((∃ h, (0 < h → 0 < n) ∧
+        fs = (List.range' lv n).map .task ++ (List.range h).map (fun k => .helper (lv + n - 1) (k + 1))) ∨
+     (∃ h, n < len ∧ fs = (List.range' lv n).map .task ++ hookFrames (lv + n) h))
+
+theorem refStep_shape (lv len : Nat) (L : Level) (child : Option (Nat × List Frame))
+    (hc : ∀ tok fs, child = some (tok, fs) → GluedShape (lv + 1) len fs) :
+    ∀ tok fs, refStep lv L child = some (tok, fs) → GluedShape lv (len + 1) fs := by
+  intro tok fs h
+  have hown : ∀ tok fs, (L.own.map fun h => (ownTok lv, raisedIn lv h)) = some (tok, fs) → GluedShape lv (len + 1) fs := by
+    intro tok fs ho
+    cases hx : L.own with
+    | none => simp [hx] at ho
+    | some h' =>
+      simp only [hx, Option.map_some, Option.some.injEq, Prod.mk.injEq] at ho
+      exact ⟨1, by omega, Or.inl ⟨h', by simp, by simp [← ho.2, raisedIn, List.range'_one]⟩⟩
+  simp only [refStep] at h
+  cases child with
+  | none => exact hown tok fs h
+  | some p =>
+    obtain ⟨tok', fs'⟩ := p
+    obtain ⟨n, hn, hshape⟩ := hc tok' fs' rfl
+    cases hh : L.handler with
+    | raiseNew hd =>
+      simp only [hh, Option.some.injEq, Prod.mk.injEq] at h
+      exact ⟨1, by omega, Or.inl ⟨hd, by simp, by simp [← h.2, raisedIn, List.range'_one]⟩⟩
+    | swallow =>
+      simp only [hh] at h
       exact hown tok fs h
-    | some p =>
-      obtain ⟨tok', fs'⟩ := p
-      rw [hr] at h
-      obtain ⟨n, h', hn, hpos, hfs⟩ := ih (lv + 1) tok' fs' hr
-      cases hh : L.handler with
-      | raiseNew hd =>
-        simp only [hh, Option.some.injEq, Prod.mk.injEq] at h
-        exact ⟨1, hd, by simp, by simp, by simp [← h.2, raisedIn, List.range'_one]⟩
-      | swallow =>
-        simp only [hh] at h
-        exact hown tok fs h
-      | pass | bare | named =>
-        simp only [hh, Option.some.injEq, Prod.mk.injEq] at h
-        refine ⟨n + 1, h', by simp; omega, by omega, ?_⟩
+    | pass | bare | named =>
+      simp only [hh, Option.some.injEq, Prod.mk.injEq] at h
+      refine ⟨n + 1, by omega, ?_⟩
+      rcases hshape with ⟨h', hpos, hfs⟩ | ⟨h', hlt, hfs⟩
+      · left
+        refine ⟨h', by omega, ?_⟩
         rw [← h.2, hfs, List.range'_succ]
         cases n with
         | zero =>
@@ -165,6 +163,32 @@ theorem C18_glue_shape (bottom : Bool) (levels : List Level) :
         | succ m =>
           have : lv + 1 + (m + 1) - 1 = lv + (m + 1 + 1) - 1 := by omega
           simp [this]
+      · right
+        refine ⟨h', by omega, ?_⟩
+        rw [← h.2, hfs, List.range'_succ]
+        have : lv + 1 + n = lv + (n + 1) := by omega
+        simp [this]
+
+/-- **one frame per task level, in call order, ending at the raising frame** (induction on the depth of the chain) -/
+theorem C18_glue_shape (bottom : Bottom) (levels : List Level) :
+    ∀ (lv tok : Nat) (fs : List Frame), ref bottom lv levels = some (tok, fs) → GluedShape lv levels.length fs := by
+  induction levels with
+  | nil =>
+    intro lv tok fs h
+    cases bottom <;> simp [ref] at h
+    exact ⟨0, by simp, Or.inl ⟨0, by simp, by simp [h.2]⟩⟩
+  | cons L rest ih =>
+    intro lv tok fs h
+    have hstep := refStep_shape lv rest.length L (ref bottom (lv + 1) rest) (fun tok fs h => ih (lv + 1) tok fs h)
+    cases rest with
+    | nil =>
+      cases bottom with
+      | hook r hd =>
+        simp only [ref, Option.some.injEq, Prod.mk.injEq] at h
+        exact ⟨0, by simp, Or.inr ⟨hd, by simp, by simp [← h.2]⟩⟩
+      | none => exact hstep tok fs (by simpa only [ref] using h)
+      | errFuture => exact hstep tok fs (by simpa only [ref] using h)
+    | cons L' rest' => exact hstep tok fs (by simpa only [ref] using h)
 
 /-- asynq.debug.extract_tb (which skips frames of modules that set `__traceback_hide__`) hides library frames only:
     every user frame stays, in order -/
@@ -182,7 +206,7 @@ theorem C18_stack_creator_chain (line : Nat → Frame) (d : Nat) :
 
 /-- `format_asynq_stack()` called inside the body of level `lv` (before its await, or in its except clause) lists
     levels `0 .. lv`, outermost first - for every chain -/
-theorem C18_stack_in_body (rule : FrameRule) (bottom : Bool) (levels : List Level) :
+theorem C18_stack_in_body (rule : FrameRule) (bottom : Bottom) (levels : List Level) :
     ∀ ev ∈ (run rule bottom 0 [] levels).events,
       ∃ k lv, (k = .start ∨ k = .handler) ∧ ev = .stack k lv (List.range (lv + 1)) :=
   run_events rule bottom levels 0 [] rfl
@@ -190,7 +214,7 @@ theorem C18_stack_in_body (rule : FrameRule) (bottom : Bool) (levels : List Leve
 /-- a task created by level `i` and run after the whole chain has finished (whatever failed meanwhile) lists
     `0 .. i` and itself - provided no level lets an exception of a SYNCHRONOUSLY called child pass (`syncSafe`), or
     `_frame` is filled with a frame of the task's own synchronous code (`FrameRule.own`, not the code as it is) -/
-theorem C18_stack_orphan_partial (rule : FrameRule) (bottom : Bool) (levels : List Level)
+theorem C18_stack_orphan_partial (rule : FrameRule) (bottom : Bottom) (levels : List Level)
     (hsafe : rule = .own ∨ syncSafe levels = true) :
     ∀ ev ∈ orphanEvents (run rule bottom 0 [] levels).lines 0 levels,
       ∃ i, ev = .stack .orphan i (List.range (i + 1) ++ [1000 + i]) := by
@@ -202,20 +226,20 @@ theorem C18_stack_orphan_partial (rule : FrameRule) (bottom : Bool) (levels : Li
     raises; `_continue_on_generator` stores the deepest traceback frame - level 1's - as level 0's `_frame`, so the
     orphan created by level 0 is told its creator is level 1 -/
 theorem C18_stack_orphan_counterexample :
-    runTop .deepest false [{ await := .sync, handler := .pass, own := none, orphan := true },
+    runTop .deepest .none [{ await := .sync, handler := .pass, own := none, orphan := true },
                   { await := .yld, handler := .pass, own := some 0, orphan := false }] =
       [.stack .start 0 [0], .stack .start 1 [0, 1],
        .result (some (11, [.caller, .task 0, .task 1], [.caller, .task 0, .task 1], [.task 0, .task 1])),
        .stack .orphan 0 [1, 1000]] ∧
-    glueSpec false [{ await := .sync, handler := .pass, own := none, orphan := true },
+    glueSpec .none [{ await := .sync, handler := .pass, own := none, orphan := true },
                     { await := .yld, handler := .pass, own := some 0, orphan := false }]
-      (runTop .deepest false [{ await := .sync, handler := .pass, own := none, orphan := true },
+      (runTop .deepest .none [{ await := .sync, handler := .pass, own := none, orphan := true },
                      { await := .yld, handler := .pass, own := some 0, orphan := false }]) = false := by
   decide
 
 /-- **the glue / stack observer accepts every run of the model** (for `syncSafe` chains): the Boolean function the
     check evaluates on the implementation's events is satisfied by the model's events -/
-theorem C18_glue_spec_holds_partial (rule : FrameRule) (bottom : Bool) (levels : List Level)
+theorem C18_glue_spec_holds_partial (rule : FrameRule) (bottom : Bottom) (levels : List Level)
     (hsafe : rule = .own ∨ syncSafe levels = true) :
     glueClause bottom levels (runTop rule bottom levels) = "ok" := by
   have hbody := C18_stack_in_body rule bottom levels
@@ -316,7 +340,7 @@ example :
 /-- a chain of depth 3 where level 2 raises inside two helpers, level 1 re-raises with `raise e`, level 0 passes:
     the caller sees caller, L0, L1, L2, H2_1, H2_2 -/
 example :
-    (runTop .deepest false [⟨.yld, .pass, none, false⟩, ⟨.yld, .named, none, false⟩, ⟨.yld, .pass, some 2, false⟩]).getLast? =
+    (runTop .deepest .none [⟨.yld, .pass, none, false⟩, ⟨.yld, .named, none, false⟩, ⟨.yld, .pass, some 2, false⟩]).getLast? =
       some (.result (some (21, [.caller, .task 0, .task 1, .task 2, .helper 2 1, .helper 2 2],
         [.caller, .task 0, .task 1, .task 2, .helper 2 1, .helper 2 2],
         [.task 0, .task 1, .task 2, .helper 2 1, .helper 2 2]))) := by
@@ -325,13 +349,28 @@ example :
 /-- with `_frame` kept inside the task's own frames (`FrameRule.own`) the chain of `C18_stack_orphan_counterexample`
     gives the orphan its real creator -/
 example :
-    (runTop .own false [⟨.sync, .pass, none, true⟩, ⟨.yld, .pass, some 0, false⟩]).getLast? =
+    (runTop .own .none [⟨.sync, .pass, none, true⟩, ⟨.yld, .pass, some 0, false⟩]).getLast? =
       some (.stack .orphan 0 [0, 1000]) := by
+  decide
+
+/-- the raiser is a context hook: level 2 blocks on a batch item inside `with ctx:`, `ctx.pause()` raises from one helper
+    while the scheduler suspends the task; the caller sees caller, L0, L1, the hook, its helper -/
+example :
+    (runTop .deepest (.hook false 1) [⟨.yld, .pass, none, false⟩, ⟨.yld, .pass, none, false⟩, ⟨.yld, .pass, none, false⟩]).getLast? =
+      some (.result (some (4, [.caller, .task 0, .task 1, .hook 2, .hookHelper 2 1],
+        [.caller, .task 0, .task 1, .hook 2, .hookHelper 2 1], [.task 0, .task 1, .hook 2, .hookHelper 2 1]))) := by
+  decide
+
+/-- ... and the observer rejects a delivered traceback that stops above the hook (stored traceback lost) -/
+example :
+    glueClause (.hook true 0) [⟨.yld, .pass, none, false⟩, ⟨.yld, .pass, none, false⟩]
+      [.stack .start 0 [0], .stack .start 1 [0, 1],
+       .result (some (4, [.caller, .task 0], [.caller, .task 0], [.task 0]))] = "glued-traceback" := by
   decide
 
 /-- the glue observer rejects a traceback that lost a level -/
 example :
-    glueClause false [⟨.yld, .pass, none, false⟩, ⟨.yld, .pass, some 0, false⟩]
+    glueClause .none [⟨.yld, .pass, none, false⟩, ⟨.yld, .pass, some 0, false⟩]
       [.stack .start 0 [0], .stack .start 1 [0, 1],
        .result (some (11, [.caller, .task 1], [.caller, .task 1], [.task 1]))] = "glued-traceback" := by
   decide
